@@ -305,6 +305,8 @@ def find_blocked_reactions(
                 )
         if reaction_list is None:
             reaction_list = model.reactions
+        else:
+            reaction_list = model.reactions.get_by_any(reaction_list)
         # Limit the search space to reactions which have zero flux. If the
         # reactions already carry flux in this solution,
         # then they cannot be blocked.
